@@ -8,6 +8,7 @@ import BumpverVerif.Model.PatWf
 import BumpverVerif.Model.PepTree
 import BumpverVerif.Model.PepOfRecord
 import BumpverVerif.Model.Pep440
+import BumpverVerif.Model.PatText
 open Lean
 namespace BV.Drv
 
@@ -117,7 +118,10 @@ def handleV2 : Handler := fun op j =>
           | none => false
         Json.mkObj [("tokenized", Json.bool true), ("compile_eq", Json.bool ceq), ("render_eq", Json.bool req),
                     ("wf", Json.bool t.wfTop), ("in_domain", Json.bool inDom), ("anchored", Json.bool anchored),
-                    ("theorem_instance", Json.bool thm)])
+                    ("theorem_instance", Json.bool thm),
+                    -- inside the domain of the PROVED tree = string-surgery tie (Props/C02Tie.lean: compile_tie, format_tie, tokenize_tie)?
+                    ("tok_safe", Json.bool (tokSafe t && t.text == p)),
+                    ("pep_tok_safe", Json.bool (tokSafe t.toPep))])
   | "pep_tie" => some do
     -- C15 on the pattern tree: does the tree-level conversion agree with the string surgery on this pattern, and is the (pattern,
     -- record) pair inside the domain of C15_derived_accepts_of_original?  If so the theorem's conclusion is evaluated too.
